@@ -238,7 +238,9 @@ func c14Copies(c *Ctx, a *sketchAnchors) {
 	}
 	var cps []cp
 	mapAllowed := func(prefix string) func(string) bool {
-		return func(l string) bool { return immutable && (l == prefix || strings.HasPrefix(l, prefix+".") || strings.HasPrefix(l, prefix+"[")) }
+		return func(l string) bool {
+			return immutable && (l == prefix || strings.HasPrefix(l, prefix+".") || strings.HasPrefix(l, prefix+"["))
+		}
 	}
 	cps = append(cps, cp{a.DDSketch, mapAllowed("p0." + a.mapField)})
 	cps = append(cps, cp{a.Exact, mapAllowed("p0." + a.innerFld + "." + a.mapField)})
